@@ -21,7 +21,15 @@ claimed = {
  "C08": "one operation of the response-writer state machine from an arbitrary valid state (status, length, ghost counters are solver variables; short writes and write errors symbolic) re-establishes the invariant and the per-operation post-conditions; K-operation sequences through a real request as cross-check",
  "C09": "every crash point of route/NotFound/NotAllowed chains x hook behaviours (symbolic status): containment, single hook run, recovered value, single commit with the hook's status, propagation without hook, and a following request observing a pristine context; PanicsHandler containment",
  "C10": "the pooled context is havocked field by field (cursor, status, length symbolic) and the first handler of the next request is proved to observe a pristine context for static, dynamic, 404 and 405 requests",
+ "C12": "registration programs with nested/sibling groups, Use inside groups, Controller and symbolic group prefixes: every route's path and middleware list proved equal to what the program text prescribes, Group proved to restore prefix and middleware, probe paths proved to reach exactly the concatenated prefixes",
+ "C15": "values of every variable are solver variables constrained only by the variable's regex: the built path is proved to route back to the same route with exactly those values, under all three argument styles, naming APIs and map orders; GetRoute returns the latest registration",
+ "C16": "for sampled controller method sets (128 generated types, with/without Uses, 3 bases, 7 map orders) the registered table is proved equal to the documented one and every probe (symbolic tail, 8 methods) is proved to dispatch to the action the table gives",
+ "C17": "request path bytes symbolic: every file access of StaticDir/StaticFiles/StaticFS/StaticFile is proved to go through the configured root or name the configured file; StaticFiles proved to serve exactly paths with an allowed extension",
+ "C18": "decidable part: the source touched by binding.Auto (query/form/multipart/JSON/XML/none) is proved to follow the method and the media type for symbolic subtypes; successful bind implies validation ran when enabled; codec round-trips are explicitly outside the claim",
+ "C19": "status symbolic, payload bytes symbolic: each helper/renderer proved to emit the given status, its documented Content-Type (unchanged when preset, pkg/render) and the given body / callback(E); Accept negotiation proved to pick the first supported type; encoder failures reported not panicked",
+ "C20": "credentials and account map symbolic: downstream runs iff credentials are well-formed and accepted, else 401+challenge / 403; override value bytes symbolic: rewrite iff POST and upper(value) in {PUT,PATCH,DELETE}; wrapper lists compose outermost-first and obey abort",
 }
+NA = {"C03": "concurrency: the clock (partial-order) encoding of request interleavings is not built yet in this session"}
 reasons_pending = "check under construction in this session (engine built, harness not yet registered)"
 
 man = {
